@@ -170,23 +170,35 @@ Definition refuses_fails (orc : bytes -> bytes -> option bytes) (opts : dopts) (
 
 Theorem C06_refuses_refuted_narrowing_int_overflow :    (* i300; into int8 gives 44 *)
   refuses_fails no_oracle opts0 [] (TInt KInt8) (WInt 300) (XInt KInt8 44).
-Proof. split; [reflexivity|]. split; [eexists; split; reflexivity | vm_compute; reflexivity]. Qed.
+Proof.
+  split; [vm_compute; reflexivity|]. split; [|vm_compute; reflexivity].
+  eexists. split; [vm_compute; reflexivity | vm_compute; reflexivity].
+Qed.
 Print Assumptions C06_refuses_refuted_narrowing_int_overflow.
 
 Theorem C06_refuses_refuted_negative_into_unsigned :    (* i-1; into uint8 gives 255 *)
   refuses_fails no_oracle opts0 [] (TInt KUint8) (WInt (-1)) (XInt KUint8 255).
-Proof. split; [reflexivity|]. split; [eexists; split; reflexivity | vm_compute; reflexivity]. Qed.
+Proof.
+  split; [vm_compute; reflexivity|]. split; [|vm_compute; reflexivity].
+  eexists. split; [vm_compute; reflexivity | vm_compute; reflexivity].
+Qed.
 Print Assumptions C06_refuses_refuted_negative_into_unsigned.
 
 Theorem C06_refuses_refuted_uint64_digits_wrap :        (* l18446744073709551617; into uint64 gives 1 *)
   refuses_fails no_oracle opts0 [] (TInt KUint64) (WLong 18446744073709551617) (XInt KUint64 1).
-Proof. split; [reflexivity|]. split; [eexists; split; reflexivity | vm_compute; reflexivity]. Qed.
+Proof.
+  split; [vm_compute; reflexivity|]. split; [|vm_compute; reflexivity].
+  eexists. split; [vm_compute; reflexivity | vm_compute; reflexivity].
+Qed.
 Print Assumptions C06_refuses_refuted_uint64_digits_wrap.
 
 Theorem C06_refuses_refuted_long_into_interface :       (* l9223372036854775808; into interface{} (LongTypeInt) gives the least int *)
   refuses_fails no_oracle opts0 [] TIface (WLong 9223372036854775808)
                 (XIface (TInt KInt) (XInt KInt (-9223372036854775808))).
-Proof. split; [reflexivity|]. split; [eexists; split; reflexivity | vm_compute; reflexivity]. Qed.
+Proof.
+  split; [vm_compute; reflexivity|]. split; [|vm_compute; reflexivity].
+  eexists. split; [vm_compute; reflexivity | vm_compute; reflexivity].
+Qed.
 Print Assumptions C06_refuses_refuted_long_into_interface.
 
 (* the oracle entries strconv and the hardware give for the text 1.5 *)
@@ -198,7 +210,10 @@ Definition orc_1_5 : bytes -> bytes -> option bytes := fun fn arg =>
 
 Theorem C06_refuses_refuted_float_truncates :           (* d1.5; into int gives 1 *)
   refuses_fails orc_1_5 opts0 [] (TInt KInt) (WDouble (bs "1.5")) (XInt KInt 1).
-Proof. split; [reflexivity|]. split; [eexists; split; reflexivity | vm_compute; reflexivity]. Qed.
+Proof.
+  split; [vm_compute; reflexivity|]. split; [|vm_compute; reflexivity].
+  eexists. split; [vm_compute; reflexivity | vm_compute; reflexivity].
+Qed.
 Print Assumptions C06_refuses_refuted_float_truncates.
 
 (* ---- repaired by 62cfe3a (were panics / memory corruption of the faithful model before the fix;
@@ -216,7 +231,10 @@ Theorem C06_repaired_unhashable_key_is_an_error :
   dec_top no_oracle opts0 [] 100 TIface (WMap [WList []; WDigit 1]) = OErr EOther /\
   dec_top no_oracle opts0 [] 100 (TMap TIface (TInt KInt)) (WMap [WBytes (bs "k"); WDigit 1]) = OErr EOther /\
   (exists d, denote_top (WMap [WList []; WDigit 1]) = Some d /\ representable no_oracle opts0 [] spec_fuel TIface d = RNone).
-Proof. repeat split; try (vm_compute; reflexivity). eexists; split; vm_compute; reflexivity. Qed.
+Proof.
+  split; [vm_compute; reflexivity|]. split; [vm_compute; reflexivity|]. split; [vm_compute; reflexivity|].
+  eexists. split; [vm_compute; reflexivity | vm_compute; reflexivity].
+Qed.
 Print Assumptions C06_repaired_unhashable_key_is_an_error.
 
 (* c5"Inner"1{s1"z"}o0{1} into map[string]interface{}: a class field the registered type lacks is decoded as interface{} *)
@@ -225,7 +243,7 @@ Theorem C06_repaired_unknown_class_field_is_kept :
   tok_ok w = true /\
   dec_top no_oracle (opts_reg true) inner_env 100 (TMap TString TIface) w =
     OOk (XMap [(XStr (bs "z"), XIface (TInt KInt) (XInt KInt 1)); (XStr (bs "x"), XIface (TInt KInt) (XInt KInt 2))]).
-Proof. split; vm_compute; reflexivity. Qed.
+Proof. split; [vm_compute; reflexivity | vm_compute; reflexivity]. Qed.
 Print Assumptions C06_repaired_unknown_class_field_is_kept.
 
 (* c5"Inner"1{s1"x"}o0{1} into map[interface{}]interface{}: the field names are boxed as interface{} keys *)
@@ -234,7 +252,7 @@ Theorem C06_repaired_object_into_interface_keyed_map :
   tok_ok w = true /\
   dec_top no_oracle (opts_reg true) inner_env 100 (TMap TIface TIface) w =
     OOk (XMap [(XIface TString (XStr (bs "x")), XIface (TInt KInt) (XInt KInt 1))]).
-Proof. split; vm_compute; reflexivity. Qed.
+Proof. split; [vm_compute; reflexivity | vm_compute; reflexivity]. Qed.
 Print Assumptions C06_repaired_object_into_interface_keyed_map.
 
 (* m2{ua c3"Zzz"1{s1"x"} o0{1} ub r2;} into struct{A interface{}; B map[string]interface{}}: the referenced
@@ -245,7 +263,7 @@ Theorem C06_repaired_reference_to_object_map :
   tok_ok w = true /\
   dec_top no_oracle (opts_reg false) inner_env 100 (TStruct (bs "SM")) w =
     OOk (XStruct (bs "SM") [XIface (TMap TString TIface) m; m]).
-Proof. split; vm_compute; reflexivity. Qed.
+Proof. split; [vm_compute; reflexivity | vm_compute; reflexivity]. Qed.
 Print Assumptions C06_repaired_reference_to_object_map.
 
 (* ============================================================ the hypotheses are satisfiable *)
@@ -283,7 +301,8 @@ Example accepts_instance :   (* l5; into int64, s1"7" into uint8, g{...} into uu
   proved_scalar (TInt KInt64) = true /\ scalar_tok (WLong 5) = true /\ wf_tok (WLong 5) = true /\
   representable failing_oracle opts0 [] 3 (TInt KInt64) (DInt 5) = RSome (XInt KInt64 5) /\
   representable failing_oracle opts0 [] 3 (TInt KUint8) (DStr (bs "7")) = RSome (XInt KUint8 7).
-Proof. repeat split; reflexivity. Qed.
+Proof. split; [vm_compute; reflexivity|]. split; [vm_compute; reflexivity|]. split; [vm_compute; reflexivity|].
+  split; vm_compute; reflexivity. Qed.
 
 Example refuses_instance :   (* s3"abc" into int, b2"ab" into int64 are refused and inside [fits] *)
   representable failing_oracle opts0 [] 3 (TInt KInt) (DStr (bs "abc")) = RNone /\
@@ -291,4 +310,4 @@ Example refuses_instance :   (* s3"abc" into int, b2"ab" into int64 are refused 
   representable failing_oracle opts0 [] 3 (TInt KInt64) (DBytes (bs "ab")) = RNone /\
   fits failing_oracle (TInt KInt64) (WBytes (bs "ab")) = true /\
   fits failing_oracle (TInt KInt8) (WInt 127) = true /\ fits failing_oracle (TInt KInt8) (WInt 128) = false.
-Proof. repeat split; reflexivity. Qed.
+Proof. do 5 (split; [vm_compute; reflexivity|]). vm_compute; reflexivity. Qed.
